@@ -8,21 +8,21 @@ namespace PV.Props.C32
 open PV PV.CheckFile
 
 /-- **check-file = specification.** For every streaming hash (`HashLaws`), every file, every handle read
-policy that makes progress (short reads allowed), and every start / length / block size: the server's
-answer is the specification's — "Block size too small" exactly when the effective block size is below
-256, otherwise the concatenation of `H` over the consecutive `block`-sized pieces of the requested
-range clipped at end of file (`length = 0` ⇒ to EOF; `block = 0` ⇒ one block).  In particular neither
-loop ever exhausts its fuel bound (`blocklen + 1` reads per block, `length + 1` blocks). -/
+policy that makes progress (short reads allowed) and does not fail, and every start / length / block size:
+the server's answer is the specification's — "Block size too small" exactly when the effective block size
+is below 256, otherwise the concatenation of `H` over the consecutive `block`-sized pieces of the requested
+range clipped at end of file (`length = 0` ⇒ to EOF; `block = 0` ⇒ one block). -/
 theorem checkFile_eq_spec (A : HashAlg) (H : Bytes → Bytes) (hl : HashLaws A H) (e : Env)
-    (hp : e.Progress) (start length bs : Nat) :
+    (hp : e.Progress) (hre : ∀ off n, e.readErr off n = none) (hst : e.statErr = none)
+    (start length bs : Nat) :
     checkFile A e start length bs = spec H e.content start length bs := by
   unfold checkFile spec
-  simp only
+  simp only [hst, ite_self]
   by_cases hb : effBlock e.content.length start length bs < 256
   · simp [hb]
   · simp only [hb, if_false]
     have hbs : 1 ≤ (effBlock e.content.length start length bs).toNat := by omega
-    have := outer_spec A H hl e hp (start + (effLength e.content.length start length).toNat)
+    have := outer_spec A H hl e hp hre (start + (effLength e.content.length start length).toNat)
       (effBlock e.content.length start length bs).toNat hbs
       ((effLength e.content.length start length).toNat + 1) start [] (by omega)
     rw [this]
@@ -31,14 +31,53 @@ theorem checkFile_eq_spec (A : HashAlg) (H : Bytes → Bytes) (hl : HashLaws A H
         = (effLength e.content.length start length).toNat := by omega
     rw [this]
 
-/-- **Termination.** The model's answer is never "out of fuel": both `while` loops of `_check_file` finish
-within the stated bounds for every input (this is what fails for the unrepaired code, which spins at EOF). -/
-theorem terminates (A : HashAlg) (H : Bytes → Bytes) (hl : HashLaws A H) (e : Env) (hp : e.Progress)
-    (start length bs : Nat) : checkFile A e start length bs ≠ .noFuel := by
-  rw [checkFile_eq_spec A H hl e hp]
-  unfold spec
-  simp only
-  split <;> simp
+/-- **Termination ("answers promptly").** For EVERY handle — short reads, empty reads before EOF, reads or `stat`
+failing with an error code at any point — and every start / length / block size, both `while` loops of
+`_check_file` finish within their bounds (`blocklen + 1` reads per block, `length + 1` blocks): the answer is
+never "out of fuel".  (The unrepaired code spins forever on an empty read.) -/
+theorem terminates (A : HashAlg) (e : Env) (start length bs : Nat) :
+    checkFile A e start length bs ≠ .noFuel := by
+  unfold checkFile
+  cases hs : (if length = 0 then e.statErr else none) with
+  | some code => simp
+  | none =>
+    simp only
+    by_cases hb : effBlock e.content.length start length bs < 256
+    · simp [hb]
+    · simp only [hb, if_false]
+      have hbs : 1 ≤ (effBlock e.content.length start length bs).toNat := by omega
+      have := outer_total A e (start + (effLength e.content.length start length).toNat)
+        (effBlock e.content.length start length bs).toNat hbs
+        ((effLength e.content.length start length).toNat + 1) start [] (by omega)
+      cases ho : outer A e (start + (effLength e.content.length start length).toNat)
+          (effBlock e.content.length start length bs).toNat
+          ((effLength e.content.length start length).toNat + 1) start [] with
+      | none => exact absurd ho this
+      | some r => cases r <;> simp
+
+/-- the complete request (`request`): an unknown handle or no known algorithm is refused before anything is read;
+otherwise the reply is `checkFile`'s and names the first offered algorithm the server knows -/
+theorem request_cases (A : HashAlg) (handle : Option Env) (known algs : List Bytes) (start length bs : Nat) :
+    (handle = none → request A handle known algs start length bs = (.badHandle, [])) ∧
+    (∀ e, handle = some e → selectAlg known algs = none →
+      request A handle known algs start length bs = (.noAlg, [])) ∧
+    (∀ e a, handle = some e → selectAlg known algs = some a →
+      request A handle known algs start length bs = (checkFile A e start length bs, a) ∧ a ∈ known ∧ a ∈ algs) := by
+  refine ⟨?_, ?_, ?_⟩
+  · intro h; subst h; rfl
+  · intro e h hs; subst h; simp [request, hs]
+  · intro e a h hs; subst h
+    refine ⟨by simp [request, hs], ?_⟩
+    induction algs with
+    | nil => simp [selectAlg] at hs
+    | cons x r ih =>
+      simp only [selectAlg] at hs
+      by_cases hx : x ∈ known
+      · simp only [hx, if_true, Option.some.injEq] at hs
+        subst hs; exact ⟨hx, by simp⟩
+      · simp only [hx, if_false] at hs
+        have := ih hs
+        exact ⟨this.1, by simp [this.2]⟩
 
 /-- The blocks of the specification, by index: block `k` exists iff `k·bs` lies inside the range, and it is
 the bytes `[k·bs, (k+1)·bs)` of the range (fewer for the last block). -/
@@ -98,7 +137,7 @@ example : ({ content := [1, 2, 3, 4, 5, 6, 7], short := fun _ _ => 3 } : Env).Pr
 /-- the theorem instantiated: toy hash, plain file of 600 bytes, range from 100 to EOF in 256-byte blocks -/
 example : checkFile toyAlg (fullReads (List.replicate 600 7)) 100 0 256
     = spec toyH (List.replicate 600 7) 100 0 256 :=
-  checkFile_eq_spec toyAlg toyH toy_laws _ (fullReads_progress _) 100 0 256
+  checkFile_eq_spec toyAlg toyH toy_laws _ (fullReads_progress _) (fun _ _ => rfl) rfl 100 0 256
 
 /-- a 500-byte range in 256-byte blocks is exactly two blocks: bytes [0,256) and [256,500) -/
 example (d : Bytes) (h : d.length = 500) :
